@@ -19,7 +19,33 @@ type EnvSetting struct {
 
 func (e EnvSetting) String() string { return e.Name + "=" + e.Value }
 
+// wellKnown: variables with a conventional meaning, and values of theirs that
+// change what a careless program does. When a source file that reads the
+// environment at all (a Getenv / LookupEnv / Environ call with any argument,
+// e.g. a loop over names) mentions one of these names as a string literal, the
+// settings below count as literal settings of the tree.
+var wellKnown = map[string][]string{
+	"LANG":            {"de_DE.ISO-8859-1", "tr_TR.UTF-8", "C"},
+	"LC_ALL":          {"de_DE.ISO-8859-1", "tr_TR.UTF-8", "C"},
+	"LC_CTYPE":        {"de_DE.ISO-8859-1", "ja_JP.SJIS"},
+	"LC_MESSAGES":     {"de_DE.UTF-8"},
+	"LANGUAGE":        {"de:fr"},
+	"TZ":              {"Asia/Kolkata"},
+	"NO_COLOR":        {"1"},
+	"CI":              {"true"},
+	"GODEBUG":         {"netdns=go"},
+	"SHELL":           {"/bin/false"},
+	"USER":            {"nobody"},
+	"EDITOR":          {"/bin/false"},
+	"PAGER":           {"/bin/false"},
+	"DISPLAY":         {":99"},
+	"SSH_AUTH_SOCK":   {"/nonexistent/agent.sock"},
+	"XDG_CONFIG_HOME": {"/nonexistent/config"},
+	"XDG_CACHE_HOME":  {"/nonexistent/cache"},
+}
+
 var (
+	anyEnvRe  = regexp.MustCompile(`\b(?:Getenv|LookupEnv|Environ)\(`)
 	getenvRe  = regexp.MustCompile(`(?:Getenv|LookupEnv)\(\s*"([A-Za-z_][A-Za-z0-9_]*)"\s*\)`)
 	literalRe = regexp.MustCompile(`"([A-Za-z0-9_.:,/=+-]{1,40})"`)
 )
@@ -54,6 +80,18 @@ func EnvSettings() []EnvSetting {
 		b, err := os.ReadFile(p)
 		if err != nil {
 			return nil
+		}
+		if anyEnvRe.Match(b) {
+			for name, vs := range wellKnown {
+				if strings.Contains(string(b), `"`+name+`"`) {
+					if vals[name] == nil {
+						vals[name] = map[string]bool{}
+					}
+					for _, v := range vs {
+						vals[name][v] = true
+					}
+				}
+			}
 		}
 		lines := strings.Split(string(b), "\n")
 		for i, l := range lines {
